@@ -7,6 +7,7 @@ import RactorModel.Lemmas.CheckSession
 import RactorModel.Lemmas.HandshakeDial
 import RactorModel.Lemmas.HandshakeFail
 import RactorModel.Lemmas.HandshakeRefineB
+import RactorModel.Lemmas.Reconnect
 
 /-!
 # C18 — duplicate connections converge on one and the same link
@@ -517,6 +518,33 @@ theorem reconnection_is_elected (st : NS) (peer : String) (id : Nat) (srv : Bool
       id ∈ st2.listed ∧ st2.isElected id = true ∧ st2.checkSession peer n = .noOther :=
   reconnect_elected st peer id srv n hnone hfresh
 
+/-- (the link died, the peer reconnects) Take ANY `NodeServerState`; the supervision handler removes
+every session that claims `peer`'s name (`closeAll (sessionsOf peer)` — the link and all its
+duplicates are gone). A new connection (`ConnectionOpened`, fresh actor id, either direction) that
+registers `peer` with any nonce and authenticates is accepted afresh: its commit survives with no
+losers, it is listed and elected, and its own `CheckSession` answers `NoOtherConnection` — nothing
+of the dead sessions can veto or displace it. (Oracle clause `reconnection-not-accepted-afresh` of
+the `fresh` ops, run through the real `handle_supervisor_evt`.) -/
+theorem reconnection_is_accepted_afresh (st : NS) (peer : String) (id : Nat) (srv : Bool) (n : Nat)
+    (hfresh : ∀ s ∈ st.sessions, s.id ≠ id) :
+    ∃ st2, (((((st.closeAll (st.sessionsOf peer)).open id srv).register id peer n).1).commit id
+        = some (st2, true, [])) ∧
+      id ∈ st2.listed ∧ st2.isElected id = true ∧ st2.checkSession peer n = .noOther := by
+  have hs := (closeAll_sessions (st.sessionsOf peer) st).1
+  have hnone : ∀ s ∈ (st.closeAll (st.sessionsOf peer)).sessions, s.peerName ≠ some peer := by
+    intro s hs' hp
+    rw [hs] at hs'
+    obtain ⟨hmem, hnot⟩ := List.mem_filter.mp hs'
+    have : s.id ∈ st.sessionsOf peer := by
+      unfold NS.sessionsOf
+      exact List.mem_map.mpr ⟨s, List.mem_filter.mpr ⟨hmem, by simp [hp]⟩, rfl⟩
+    simp [this] at hnot
+  have hfr : ∀ s ∈ (st.closeAll (st.sessionsOf peer)).sessions, s.id ≠ id := by
+    intro s hs'
+    rw [hs] at hs'
+    exact hfresh s (List.mem_filter.mp hs').1
+  exact reconnect_elected (st.closeAll (st.sessionsOf peer)) peer id srv n hnone hfr
+
 /-- (stability) An elected set re-elects itself: a second election closes nothing more. -/
 theorem elected_set_is_stable (o : Ordering) (cs : List Cand) :
     elect o (pipeline o cs) = elect o cs := by
@@ -634,6 +662,7 @@ end C18
 #print axioms C18.unauthenticated_cannot_veto_check_session
 #print axioms C18.closed_session_leaves_no_trace
 #print axioms C18.reconnection_is_elected
+#print axioms C18.reconnection_is_accepted_afresh
 #print axioms C18.elected_set_is_stable
 #print axioms C18.commit_leaves_elected_set
 #print axioms C18.elected_session_continues
